@@ -1007,6 +1007,40 @@ func installHooks() {
 			s.Yield(site + "#unlocked")
 		}
 	}
+	zzsimhook.TryLockFn = func(m interface{}, site string, do func() bool) bool {
+		s := current.Load()
+		if s == nil || s.dead.Load() {
+			return do()
+		}
+		// an interleaving point, then the model decides (the caller is the only released task)
+		s.Yield(site + "#trylock")
+		t := s.currentTask()
+		s.mu.Lock()
+		ls := s.lockOf(m)
+		free := ls == nil || (ls.writer == nil && len(ls.readers) == 0)
+		if free {
+			if ls == nil {
+				ls = &lockState{key: m}
+				s.locks = append(s.locks, ls)
+			}
+			ls.writer = t
+			t.holding++
+		}
+		s.mu.Unlock()
+		if !free {
+			return false
+		}
+		if !do() {
+			// cannot happen: the model says the mutex is free
+			s.addLibEvent("sim: TryLock failed on a mutex the lock model considers free at " + site)
+			s.mu.Lock()
+			ls.writer = nil
+			t.holding--
+			s.mu.Unlock()
+			return false
+		}
+		return true
+	}
 	zzsimhook.SelectOrderFn = func(site string, n int) []int {
 		if s := current.Load(); s != nil && !s.dead.Load() {
 			code := s.park(s.currentTask(), &parkOp{kind: opSelect, site: site + "#select", n: n})
